@@ -127,8 +127,13 @@ fn handle(mut s: TcpStream, data: &Arc<Vec<u8>>, script: &Script, index: usize, 
         })
         .map(|(_, a)| a.clone())
         .unwrap_or_default();
+    // the request is logged as soon as it has been read (the client may finish before we return)
+    let slot = {
+        let mut l = log.lock().unwrap();
+        l.push(ReqLog { index, range, sent_body: 0, status: 0 });
+        l.len() - 1
+    };
     if action.drop {
-        log.lock().unwrap().push(ReqLog { index, range, sent_body: 0, status: 0 });
         let _ = s.shutdown(std::net::Shutdown::Both);
         return;
     }
@@ -180,8 +185,8 @@ fn handle(mut s: TcpStream, data: &Arc<Vec<u8>>, script: &Script, index: usize, 
     } else {
         head.push_str(&format!("Content-Length: {}\r\n\r\n", body.len()));
     }
+    log.lock().unwrap()[slot].status = status;
     if s.write_all(head.as_bytes()).is_err() {
-        log.lock().unwrap().push(ReqLog { index, range, sent_body: 0, status });
         return;
     }
     let _ = s.flush();
@@ -211,11 +216,11 @@ fn handle(mut s: TcpStream, data: &Arc<Vec<u8>>, script: &Script, index: usize, 
             std::thread::yield_now();
         }
     }
-    if action.chunked && action.cut_after.is_none() && ok {
+    if action.chunked && action.cut_after.map(|c| c >= body.len()).unwrap_or(true) && ok {
         let _ = s.write_all(b"0\r\n\r\n");
     }
     let _ = s.flush();
-    log.lock().unwrap().push(ReqLog { index, range, sent_body: sent, status });
+    log.lock().unwrap()[slot].sent_body = sent;
     // FIN, then drain what the client may still send so that the close is not a RST
     let _ = s.shutdown(std::net::Shutdown::Write);
     let _ = s.set_read_timeout(Some(std::time::Duration::from_millis(200)));
